@@ -65,8 +65,11 @@ variable {κ : Type} [DecidableEq κ]
 /-- the distinct elements of a list, in order of first occurrence. -/
 def distinct (l : List κ) : List κ := l.foldl (fun acc g => if g ∈ acc then acc else acc ++ [g]) []
 
+/-- number of occurrences of `g` in `l`. -/
+def occ (g : κ) (l : List κ) : Nat := l.count g
+
 /-- largest number of occurrences of `g` in any of the lists (0 for no list). -/
-def maxCount (g : κ) (ls : List (List κ)) : Nat := (ls.map (List.count g)).foldl max 0
+def maxCount (g : κ) (ls : List (List κ)) : Nat := (ls.map (occ g)).foldl max 0
 
 end
 
@@ -77,7 +80,7 @@ variable {α : Type} [DecidableEq α]
     min(count in the candidate, max over the references of the count in the reference). -/
 def clippedMatches (n : Nat) (cand : List α) (refs : List (List α)) : Nat :=
   ((distinct (ngrams n cand)).map fun g =>
-    min ((ngrams n cand).count g) (maxCount g (refs.map (ngrams n)))).sum
+    min (occ g (ngrams n cand)) (maxCount g (refs.map (ngrams n)))).sum
 
 /-- number of n-grams of order `n` in a candidate of length `len`. -/
 def possibleMatches (n len : Nat) : Nat := len + 1 - n
